@@ -81,6 +81,7 @@ type thread struct {
 	spawnN  int
 	killed  bool
 	exited  chan struct{}
+	bg      bool // background thread (node housekeeping): see BackgroundExisting
 }
 
 type abortSignal struct{}
@@ -107,6 +108,7 @@ type Exec struct {
 	Fails    []Failure
 	Keys     int // distinct state keys first seen in this execution
 	Trace    []string
+	Threads  []string // debugging: names of all threads of the execution
 }
 
 // Failure is an oracle failure reported by a harness.
@@ -140,6 +142,7 @@ type runtimeState struct {
 	spent     int
 	useCache  bool
 	trace     bool
+	freeCost  uint8
 	quiet     bool // setup / settle phase: default choices only, nothing recorded
 	keysSeen  int
 	resetters []func()
@@ -239,11 +242,19 @@ func (r *runtimeState) reschedule(t *thread, exiting bool) {
 		if selfEnabled && !t.yielded {
 			list = append(list, t)
 		}
+		nfg := len(list)
 		for _, u := range r.threads {
-			if u != t && r.enabled(u) {
+			if u != t && !u.bg && r.enabled(u) {
 				list = append(list, u)
 			}
 		}
+		nfg = len(list) - nfg
+		for _, u := range r.threads {
+			if u != t && u.bg && r.enabled(u) {
+				list = append(list, u)
+			}
+		}
+		_ = nfg
 		if selfEnabled && t.yielded {
 			list = append(list, t)
 		}
@@ -293,6 +304,23 @@ func (r *runtimeState) reschedule(t *thread, exiting bool) {
 			for i := 1; i < n; i++ {
 				if preempt {
 					cost[i] = 1
+				}
+			}
+			if !preempt {
+				// free choice among foreground threads; a background (housekeeping) thread
+				// runs by default only when no foreground thread is enabled, and then in id
+				// order: picking one out of that order is a deviation
+				for i := 1; i < len(list); i++ {
+					if list[i].bg {
+						cost[i] = 1
+					}
+				}
+			}
+			if !preempt && r.freeCost > 0 {
+				// delay bounding: when the running thread blocked or ended, picking any
+				// thread but the first enabled one is a deviation as well
+				for i := 1; i < n; i++ {
+					cost[i] = r.freeCost
 				}
 			}
 			if clock && len(list) > 0 {
@@ -603,6 +631,7 @@ func NameThread(n string) {
 
 // RunOptions configure one execution.
 type RunOptions struct {
+	FreeCost   uint8 // cost of a non-default pick when the running thread is not enabled (0: CHESS preemption bounding; 1: delay bounding)
 	Trace      bool
 	Prefix     []int
 	PrefixSigs []uint32 // optional: signatures recorded by the parent run (divergence detection)
@@ -639,6 +668,7 @@ func RunOnce(body func(), o RunOptions) *Exec {
 	r.aborting = false
 	r.quiet = false
 	r.trace = o.Trace
+	r.freeCost = o.FreeCost
 	r.bound = o.Bound
 	r.spent = 0
 	r.cache = o.Cache
@@ -671,6 +701,9 @@ func RunOnce(body func(), o RunOptions) *Exec {
 	}
 	active.Store(false)
 	x := r.x
+	for _, u := range r.threads {
+		x.Threads = append(x.Threads, u.name)
+	}
 	if x.Diverged == "" && len(x.Choices) < len(o.Prefix) && !x.Pruned {
 		x.Diverged = fmt.Sprintf("execution ended after %d choices but prefix has %d (steps=%d deadlock=%q horizon=%v panic=%q log=%v)", len(x.Choices), len(o.Prefix), x.Steps, x.Deadlock, x.Horizon, x.Panic, x.Log)
 	}
@@ -742,5 +775,24 @@ func Tracing() bool { return Active() && rt.trace }
 func TraceNote(s string) {
 	if Tracing() {
 		rt.x.Trace = append(rt.x.Trace, "   note: "+s)
+	}
+}
+
+// BackgroundExisting marks every thread that exists now (except the caller) as a background
+// thread: node housekeeping goroutines (ping / cleanup / metrics / expiry loops, dissolver
+// workers). At a point where the running thread is blocked or done, the default scheduler runs
+// foreground threads first (all orders explored at no cost, as before) and background threads
+// only when no foreground thread is enabled, in id order; running a background thread earlier
+// or out of order costs one deviation. Preempting a running thread costs one deviation whatever
+// the kind of the other thread. Without this, the housekeeping goroutines that wake up together
+// (e.g. on shutdown) multiply the zero-cost schedules exponentially.
+func BackgroundExisting() {
+	if !Active() {
+		return
+	}
+	for _, u := range rt.threads {
+		if u != rt.cur && !u.done {
+			u.bg = true
+		}
 	}
 }
